@@ -391,6 +391,7 @@ func main() {
 	}
 	foldGrid()
 	allOpsDiff()
+	memEdgeDiff()
 	if os.Getenv("HC01_ONLY") == "foldgrid" { // development aid
 		rep.Write(orc)
 		return
